@@ -187,6 +187,10 @@ var c15RemotePool = []c15Codec{
 	{Kind: "video", PT: 119, Name: "x-unknown", Clock: 90000},
 	{Kind: "video", PT: 120, Name: "rtx", Clock: 90000, AptRel: "listed"},
 	{Kind: "video", PT: 121, Name: "rtx", Clock: 90000, Fmtp: "apt=55"}, // apt to an unlisted payload
+	// a codec of one kind under the number a local codec of the OTHER kind is registered with (resolution
+	// of that number must find the negotiated codec also while the other kind is not negotiated at all)
+	{Kind: "video", PT: 111, Name: "VP8", Clock: 90000, FB: []string{"nack"}},                                    // local opus is 111
+	{Kind: "audio", PT: 96, Name: "opus", Clock: 48000, Ch: 2, Fmtp: "minptime=10;useinbandfec=1"}, // local VP8 is 96
 }
 
 type c15Case struct {
